@@ -228,6 +228,11 @@ pub struct IterCase {
     pub ops: Vec<IterOp>,
 }
 
+fn iter_consumers(x: u64) -> Result<(u64, u64), String> {
+    let squares: Vec<bb::Pos> = (0..64u8).filter(|s| x >> s & 1 == 1).map(|s| bb::Pos::from_u8(s).unwrap()).collect();
+    crate::itermodel::all_states_fwd_with(&format!("C18 BitBoard({x:#018x}).iter()"), || BitBoard::from_u64(x).iter(), &squares, true, &|n, s, a, b| crate::itermodel::ord_consumers(n, s, a, b))
+}
+
 fn iter_case(c: &IterCase, st: &mut Stats) -> Result<(), String> {
     let mut it = BitBoard::from_u64(c.board).iter();
     let mut model: Vec<u8> = elems(&set_from(c.board));
@@ -387,6 +392,25 @@ fn worker(ctx: &WorkerCtx) -> Result<(), Fail> {
             }
         }
         st.class("structured boards, all unary operations");
+        // the bitboard iterator against a slice iterator over the squares of the set: every
+        // provided Iterator method in every consumed-prefix state
+        let mut g = Expand(ctx.wseed(1818));
+        let mut sel: Vec<u64> = boards.iter().copied().filter(|x| x.count_ones() <= 8).collect();
+        sel.extend([u64::MAX, !1u64, !(1u64 << 63), 0x7fff_ffff_ffff_fffe, 0xaaaa_aaaa_aaaa_aaaa, 0x8000_0000_0000_0001]);
+        for _ in 0..ctx.tier.pick(64, 2000) {
+            sel.push(g.next() & g.next() & g.next());
+        }
+        let (mut states, mut calls) = (0u64, 0u64);
+        for (i, &x) in sel.iter().enumerate() {
+            if !ctx.mine(i as u64 + 5) {
+                continue;
+            }
+            let r = guarded(|| iter_consumers(x)).unwrap_or_else(Err).map_err(|d| Fail { case: json!({"iter_consumers": format!("{x:#x}")}), detail: d })?;
+            states += r.0;
+            calls += r.1;
+        }
+        st.eval(calls);
+        st.class_n("bitboard iterator consumption states in which every provided Iterator method was compared with a slice iterator", states);
         // binary operations: all ordered pairs of a core set (empty, full, singles, files, ranks and
         // complements); thorough: every structured board against the core set
         let core: Vec<u64> = boards.iter().copied().filter(|x| x.count_ones() <= 1 || x.count_ones() >= 63 || x.count_ones() == 8 || x.count_ones() == 56).collect();
@@ -433,6 +457,9 @@ fn replay(v: &Value) -> Result<(), String> {
     if v.get("constructors").is_some() {
         return constructors();
     }
+    if let Some(x) = v.get("iter_consumers") {
+        return iter_consumers(parse_hex(x)?).map(|_| ());
+    }
     if let Some(x) = v.get("unary") {
         return unary(parse_hex(x)?);
     }
@@ -447,7 +474,7 @@ pub const C18: CheckDef = CheckDef {
     id: "C18",
     worker,
     replay,
-    rule: "exhaustive over empty, full, 64 singletons, 2016 pairs, 8 files, 8 ranks and all their complements for every unary operation (constructors, membership, with/cleared/set/clear for each of 64 squares, four shifts, rank flip, complement, counts, pop sequence, iteration order and size hints, both FromIterators), all ordered pairs of a core set for | & ^ - and assign/method forms; generated 64-bit boards of varying density; proptest op lists over the iterator (next, nth(n) for n in 0..=70 and {63,64,65,127,128,2^32,2^63,usize::MAX}, clone, skip, step_by, count, last) against a Vec model, checking the remainder after every op. Non-trivial = board with >= 2 squares or an nth/skip beyond the remaining length; distinct by (board, ops).",
+    rule: "exhaustive over empty, full, 64 singletons, 2016 pairs, 8 files, 8 ranks and all their complements for every unary operation (constructors, membership, with/cleared/set/clear for each of 64 squares, four shifts, rank flip, complement, counts, pop sequence, iteration order and size hints, both FromIterators), all ordered pairs of a core set for | & ^ - and assign/method forms; generated 64-bit boards of varying density; proptest op lists over the iterator (next, nth(n) for n in 0..=70 and {63,64,65,127,128,2^32,2^63,usize::MAX}, clone, skip, step_by, count, last) against a Vec model, checking the remainder after every op; for small, extreme and generated sparse boards every provided Iterator method (count, last, nth, fold, try_fold, min, max, position, find, skip, take, step_by, chain, zip, ...) in every consumed-prefix state against a slice iterator over the squares. Non-trivial = board with >= 2 squares or an nth/skip beyond the remaining length; distinct by (board, ops).",
     assumptions: &["model: [bool;64] with file/rank arithmetic; bit i <-> square i is the shared numbering", "Iterator::nth is held to the std contract (returns the n-th remaining element, consumes it and everything before it; None exhausts the iterator), which skip/step_by rely on", "all 2^64 boards are not enumerated: every operation acts square-wise, structured boards are complete, the rest is sampled"],
     exhaustive: |_| false,
     uses_reference: false,
